@@ -188,3 +188,55 @@ pub fn compile_corpus() -> Vec<Spec> {
     });
     v
 }
+
+/// specs for the determinism runs: shapes where an unordered container or the input syntax could leak into the output
+pub fn det_corpus() -> Vec<Spec> {
+    let mut v = vec![];
+    let nullable_alias = |t: &str| Schema { kind: Kind::AllOf(vec![rf(t)]), nullable: true, ..Default::default() };
+    // chains of nullable single-$ref aliases used from members, parameters and results; paths not in alphabetical order
+    v.push(Spec {
+        components: vec![
+            ("Core".into(), s_obj(vec![("id", inl(s_int())), ("name", inl(s_string()))], &["id"])),
+            ("B".into(), nullable_alias("Core")),
+            ("A".into(), nullable_alias("B")),
+            ("Z".into(), nullable_alias("A")),
+            ("Y".into(), nullable_alias("Z")),
+            ("Holder".into(), s_obj(vec![("a", rf("A")), ("b", rf("B")), ("y", rf("Y")), ("z", rf("Z")), ("core", rf("Core"))], &["a", "y"])),
+        ],
+        paths: vec![
+            item("/zebras", vec![op("get", Some("listZebras"), vec![(200, Some(rf("Holder")))])]),
+            item("/apples/{id}", vec![Op {
+                params: vec![Param { name: "id".into(), loc: Loc::Path, required: true, schema: inl(s_string()) }],
+                body: Some(rf("Holder")),
+                ..op("put", Some("putApple"), vec![(200, Some(rf("Y")))])
+            }]),
+            item("/mangos", vec![op("get", Some("listMangos"), vec![(200, Some(inl(s_arr(rf("A")))))]), op("delete", Some("dropMangos"), vec![(204, None)])]),
+            item("/bananas", vec![op("post", Some("addBanana"), vec![(201, Some(rf("Z")))])]),
+        ],
+        ..Default::default()
+    });
+    // two independent alias chains of different lengths and many plain components
+    let mut comps: Vec<(String, Schema)> = vec![];
+    for n in ["Pet", "User", "Order", "Account", "Tag", "Team", "Invoice", "Webhook", "Category", "Address", "Status", "Meta"] {
+        comps.push((n.to_string(), s_obj(vec![("id", inl(s_int())), ("label", inl(s_string()))], &["id"])));
+    }
+    comps.push(("P1".into(), nullable_alias("Pet")));
+    comps.push(("P2".into(), nullable_alias("P1")));
+    comps.push(("P3".into(), nullable_alias("P2")));
+    comps.push(("U1".into(), nullable_alias("User")));
+    comps.push(("U2".into(), nullable_alias("U1")));
+    comps.push(("Bag".into(), s_obj(vec![("p3", rf("P3")), ("p2", rf("P2")), ("p1", rf("P1")), ("u2", rf("U2")), ("u1", rf("U1")), ("order", rf("Order")), ("team", rf("Team")), ("meta", rf("Meta"))], &["p3"])));
+    v.push(Spec {
+        components: comps,
+        paths: vec![
+            item("/y", vec![op("get", Some("getBag"), vec![(200, Some(rf("Bag")))])]),
+            item("/x", vec![op("get", Some("getAccount"), vec![(200, Some(rf("Account")))])]),
+            item("/w", vec![op("get", Some("getInvoice"), vec![(200, Some(rf("Invoice")))]), op("post", Some("newWebhook"), vec![(201, Some(rf("Webhook")))])]),
+            item("/a", vec![op("get", Some("cats"), vec![(200, Some(inl(s_arr(rf("Category")))))])]),
+            item("/b", vec![op("get", Some("addr"), vec![(200, Some(rf("Address")))]), op("put", Some("stat"), vec![(200, Some(rf("Status")))])]),
+            item("/c", vec![op("get", Some("tags"), vec![(200, Some(inl(s_arr(rf("Tag")))))])]),
+        ],
+        ..Default::default()
+    });
+    v
+}
